@@ -80,3 +80,46 @@ impl<const N: usize> std::io::Write for ArrSink<N> {
         Ok(())
     }
 }
+
+/// compact identity of an error value (variant + scalar payload): comparing two of these is what the
+/// front-end agreement scenarios do instead of the derived `==` on the error enums (a derived `==`
+/// over two symbolic-variant values explores every variant pair)
+pub fn err_code3(e: &mp::Error) -> (u8, u32) {
+    match e {
+        mp::Error::InvalidRemainingLength => (1, 0),
+        mp::Error::EmptySubscription => (2, 0),
+        mp::Error::ZeroPid => (3, 0),
+        mp::Error::InvalidQos(x) => (4, *x as u32),
+        mp::Error::InvalidConnectFlags(x) => (5, *x as u32),
+        mp::Error::InvalidConnackFlags(x) => (6, *x as u32),
+        mp::Error::InvalidConnectReturnCode(x) => (7, *x as u32),
+        mp::Error::InvalidProtocol(_, l) => (8, *l as u32),
+        mp::Error::UnexpectedProtocol(p) => (9, *p as u32),
+        mp::Error::InvalidHeader => (10, 0),
+        mp::Error::InvalidVarByteInt => (11, 0),
+        mp::Error::InvalidTopicName(_) => (12, 0),
+        mp::Error::InvalidTopicFilter(_) => (13, 0),
+        mp::Error::InvalidString => (14, 0),
+        mp::Error::IoError(_, _) => (15, 0),
+        #[allow(unreachable_patterns)]
+        _ => (99, 0),
+    }
+}
+
+pub fn err_code5(e: &mp::v5::ErrorV5) -> (u8, u32) {
+    match e {
+        mp::v5::ErrorV5::Common(c) => err_code3(c),
+        mp::v5::ErrorV5::InvalidReasonCode(t, x) => (20, ((*t as u32) << 8) | *x as u32),
+        mp::v5::ErrorV5::InvalidSubscriptionOption(x) => (21, *x as u32),
+        mp::v5::ErrorV5::InvalidPayloadFormat => (22, 0),
+        mp::v5::ErrorV5::InvalidResponseTopic => (23, 0),
+        mp::v5::ErrorV5::InvalidPropertyId(x) => (24, *x as u32),
+        mp::v5::ErrorV5::InvalidPropertyLength(x) => (25, *x),
+        mp::v5::ErrorV5::InvalidByteProperty(p, x) => (26, ((*p as u32) << 8) | *x as u32),
+        mp::v5::ErrorV5::DuplicatedProperty(p) => (27, *p as u32),
+        mp::v5::ErrorV5::InvalidProperty(t, p) => (28, ((*t as u32) << 8) | *p as u32),
+        mp::v5::ErrorV5::InvalidWillProperty(p) => (29, *p as u32),
+        #[allow(unreachable_patterns)]
+        _ => (98, 0),
+    }
+}
